@@ -363,7 +363,7 @@ ASMJIT_FAVOR_SIZE Error EmitHelper::emit_arg_move(
       }
     }
 
-    if (TypeUtils::is_vec(dst_type_id)) {
+    if (TypeUtils::is_vec(dst_type_id) || TypeUtils::is_float32(dst_type_id) || TypeUtils::is_float64(dst_type_id)) {
       // By default set destination to XMM, will be set to YMM|ZMM if needed.
       dst.set_signature(Reg::signature_of_t<RegType::kVec128>());
 
